@@ -23,6 +23,7 @@ step), thread-local work commutes with the other thread's steps, a woken task is
 polled by the executor.
 -/
 import HttpServeModel.Lemmas.Wakeup
+import HttpServeModel.Lemmas.Consistency
 
 namespace HS
 
@@ -76,5 +77,16 @@ theorem C10_same_waker_twice (cap : Nat) (hc : 0 < cap) (w : Nat) :
       [.poll w, .poll w, .prod, .wake, .prod, .wake, .poll w, .poll w]
     c.delivered = [1] ∧ c.terminal = some .end_ :=
   same_waker_twice_all cap hc w
+
+/-- The two models of the chunker agree: the interleaving model, scheduled so that the producer
+runs alone to completion, computes exactly what the sequential model (C08, C11) computes for the
+same commands — same shared state, buffer, `BodyWriter` state and results, for every program.
+(Each model is tied to the code by its own correspondence suite; this ties them to each other.) -/
+theorem C10_interleaving_model_extends_sequential (cap : Nat) (hc : 0 < cap) (prog : List PCmd) :
+    let s := eagerRun (4 * prog.length + 4) (SSys.init cap prog)
+    let h := (Hist.init cap .raw).run (prog.map fun c => AnyOp.p c.toPOp)
+    s.stage = .done ∧ s.sh = h.sys.sh ∧ s.buf = h.sys.buf ∧ s.bw = h.sys.bw ∧
+    s.results = h.pouts :=
+  eager_matches_sequential cap hc prog
 
 end HS
